@@ -187,7 +187,7 @@ def check_problem(pb, rec, info, wbase, b, res, explicit_env=False):
     except bisim.Mismatch as m:
         res.mon()
         res.case()
-        viol(m.mechanism + sfx, m.summary, anml=text, **m.details)
+        viol(m.mechanism, m.summary, anml=text, text_tags=tags, **m.details)  # the text was read: its tags caused nothing
         return
     except Unsupported:
         res.count("skipped_unsupported_by_oracle")
